@@ -1,6 +1,1018 @@
-//! C02 — stub (to be implemented).
+//! C02 — BGZF virtual positions name bytes: tell/seek/gzi are mutually consistent.
+//!
+//! Monitor: the real `bgzf::io::Reader` (and `IndexedReader`, `MultithreadedReader`) over a
+//! `std::io::Cursor` is driven in lock step with a flat-array reference model that is built from
+//! the *independent* member walker only (`model.rs`). After every operation the returned data,
+//! the return count / error, and the flat offset denoted by `virtual_position()` are compared
+//! (`drive.rs`). Case kinds:
+//!   * `hist`    — random (and a few scripted) histories of 10–200 operations over one layout;
+//!   * `exhaust` — seek to every byte boundary (dense in small blocks, boundary offsets + samples
+//!                 in large ones) from fresh, forward-reused, shuffled-reused and MT readers;
+//!   * `scan`    — seek to every in-block offset of one 65 535/65 536-byte block;
+//!   * `writer`  — write/flush histories on the real writer with `virtual_position()` sampled
+//!                 before every write; each sample must map to the number of bytes written so far
+//!                 and a reader that seeks there must deliver the stream from exactly that byte.
+
+mod drive;
+mod layout;
+mod model;
+
+use std::{collections::BTreeSet, io::Write, sync::Arc};
+
+use noodles_bgzf::{self as bgzf, gzi};
+use serde_json::{Value, json};
+use vcore::{CaseOut, Ctx, Report, Rng, Tier, guard, payload, rng::fnv1a, run_cases};
+
+use drive::{Driver, Flavor};
+use layout::{Built, LayoutSpec};
+use model::{Class, Model, raw, show};
+
+#[derive(Clone, Debug)]
+enum SOp {
+    ReadAll(usize),
+    Read(usize),
+    ReadExact(usize),
+    Fill(u64),
+    /// seek to the first target of that class (skipped if the layout has none)
+    SeekClass(Class),
+    /// seek to the canonical position of a flat offset
+    SeekFlat(u64),
+    Gzi(u64),
+}
+
+#[derive(Clone, Debug)]
+enum Case {
+    Hist { name: &'static str, layout: LayoutSpec, flavor: Flavor, gzi: &'static str, nops: usize, hseed: u64, script: Option<Vec<SOp>> },
+    Exhaust { layouts: Vec<LayoutSpec>, hseed: u64, dense_limit: usize },
+    Scan { layout: LayoutSpec, block: usize, lo: usize, hi: usize },
+    Writer { total: usize, class: String, split: String, flush_every: usize, level: u8, end: &'static str, raw_write: bool, pseed: u64 },
+}
+
+fn case_json(c: &Case) -> Value {
+    match c {
+        Case::Hist { name, layout, flavor, gzi, nops, hseed, script } => json!({
+            "kind": "hist", "name": name, "layout": layout.to_json(), "reader": flavor.name(), "gzi": gzi, "nops": nops,
+            "hseed": hseed, "script": script.as_ref().map(|s| format!("{s:?}"))}),
+        Case::Exhaust { layouts, hseed, dense_limit } => json!({
+            "kind": "exhaust", "layouts": layouts.iter().map(|l| l.to_json()).collect::<Vec<_>>(), "hseed": hseed, "dense_limit": dense_limit}),
+        Case::Scan { layout, block, lo, hi } => json!({"kind": "scan", "layout": layout.to_json(), "block": block, "offsets": [lo, hi]}),
+        Case::Writer { total, class, split, flush_every, level, end, raw_write, pseed } => json!({
+            "kind": "writer", "total": total, "class": class, "split": split, "flush_every": flush_every, "level": level,
+            "end": end, "raw_write": raw_write, "pseed": pseed}),
+    }
+}
+
+// ---------------------------------------------------------------------------------------------
+// gzi index variants
+
+fn make_index(m: &Model, variant: &str) -> Result<gzi::Index, String> {
+    let entries = match variant {
+        "no-trailing" => m.gzi_no_trailing(),
+        _ => m.gzi_full(),
+    };
+    let idx = gzi::Index::from(entries);
+    if variant == "full-roundtrip" {
+        // written with gzi::io::Writer and read back with gzi::io::Reader
+        let r = guard::catch(|| -> std::io::Result<gzi::Index> {
+            let mut w = gzi::io::Writer::new(Vec::new());
+            w.write_index(&idx)?;
+            let bytes = w.into_inner();
+            gzi::io::Reader::new(&bytes[..]).read_index()
+        });
+        return match r {
+            Ok(Ok(i)) => Ok(i),
+            Ok(Err(e)) => Err(format!("gzi index write/read failed: {e}")),
+            Err(p) => Err(format!("gzi index write/read panicked: {}", p.message)),
+        };
+    }
+    Ok(idx)
+}
+
+fn absorb(out: &mut CaseOut, d: Driver<'_>) {
+    for (k, n) in &d.stats {
+        out.count(k, *n);
+    }
+    out.count("operations", d.nops);
+    for (sig, desc) in d.viols {
+        if !out.violations.iter().any(|v| v.0 == sig) {
+            out.violation(sig, desc);
+        }
+    }
+}
+
+// ---------------------------------------------------------------------------------------------
+// random histories
+
+struct Targets {
+    nonempty: Vec<usize>,
+    empty_mid: Vec<usize>,
+}
+
+impl Targets {
+    fn new(m: &Model) -> Self {
+        let mut t = Targets { nonempty: vec![], empty_mid: vec![] };
+        for (i, b) in m.blocks.iter().enumerate() {
+            if b.len > 0 {
+                t.nonempty.push(i);
+            } else if i < m.trail {
+                t.empty_mid.push(i);
+            }
+        }
+        t
+    }
+
+    fn first_of(&self, m: &Model, class: Class) -> Option<u64> {
+        match class {
+            Class::MidBlock => self.nonempty.iter().map(|&i| &m.blocks[i]).find(|b| b.len >= 3).map(|b| raw(b.off, (b.len / 2) as u64)),
+            Class::BlockLastByte => self.nonempty.iter().map(|&i| &m.blocks[i]).find(|b| b.len >= 2).map(|b| raw(b.off, (b.len - 1) as u64)),
+            Class::BlockStart => self.nonempty.first().map(|&i| raw(m.blocks[i].off, 0)),
+            Class::EmptyMid => self.empty_mid.first().map(|&i| raw(m.blocks[i].off, 0)),
+            Class::EndAtEofMarker => m.has_trailing_empty().then(|| raw(m.blocks[m.trail].off, 0)),
+            Class::EndInnerEofMarker => (m.trail + 1 < m.blocks.len()).then(|| raw(m.blocks[m.trail + 1].off, 0)),
+            Class::FileEndNoEof => (!m.has_trailing_empty()).then(|| raw(m.file_len, 0)),
+            Class::AfterEofMarker => m.has_trailing_empty().then(|| raw(m.file_len, 0)),
+            _ => None,
+        }
+    }
+
+    /// A random seek target: `(raw, origin label)`.
+    fn pick(&self, m: &Model, d: &Driver<'_>, rng: &mut Rng) -> (u64, &'static str) {
+        let any = |rng: &mut Rng| m.canonical(rng.below(m.total() + 1));
+        let w = rng.below(100);
+        if w < 28 {
+            // mid-block: uniform over bytes, or uniform over blocks first
+            if self.nonempty.is_empty() {
+                return (any(rng), "model");
+            }
+            if rng.bool() {
+                (m.canonical(rng.below(m.total())), "model")
+            } else {
+                let b = &m.blocks[*rng.pick(&self.nonempty)];
+                (raw(b.off, rng.below(b.len as u64)), "model")
+            }
+        } else if w < 42 {
+            match self.nonempty.is_empty() {
+                true => (any(rng), "model"),
+                false => (raw(m.blocks[*rng.pick(&self.nonempty)].off, 0), "model"),
+            }
+        } else if w < 52 {
+            match self.nonempty.is_empty() {
+                true => (any(rng), "model"),
+                false => {
+                    let b = &m.blocks[*rng.pick(&self.nonempty)];
+                    (raw(b.off, (b.len - 1) as u64), "model")
+                }
+            }
+        } else if w < 62 {
+            match self.empty_mid.is_empty() {
+                true => (any(rng), "model"),
+                false => (raw(m.blocks[*rng.pick(&self.empty_mid)].off, 0), "model"),
+            }
+        } else if w < 70 {
+            (m.canonical(m.total()), "model")
+        } else if w < 74 {
+            if m.trail + 1 < m.blocks.len() {
+                (raw(m.blocks[rng.urange(m.trail + 1, m.blocks.len() - 1)].off, 0), "model")
+            } else {
+                (m.canonical(m.total()), "model")
+            }
+        } else if w < 80 {
+            (raw(m.file_len, 0), "model")
+        } else if !d.reported.is_empty() {
+            (*rng.pick(&d.reported), "reported-by-the-reader-earlier")
+        } else {
+            (any(rng), "model")
+        }
+    }
+}
+
+fn pick_size(d: &Driver<'_>, rng: &mut Rng) -> usize {
+    let rb = d.rem_in_block() as usize;
+    match rng.below(17) {
+        0 => 0,
+        1 => 1,
+        2 | 3 => rng.urange(2, 16),
+        4 | 5 => rng.urange(17, 300),
+        6 => rng.urange(301, 5000),
+        7 => 65535,
+        8 | 9 => 65536,
+        10 => 65537,
+        11 => 131072,
+        12 | 13 => rb,
+        14 => rb + 1,
+        15 => rb.saturating_sub(1),
+        _ => rng.urange(5000, 70000),
+    }
+}
+
+fn pick_gzi_offset(m: &Model, rng: &mut Rng) -> u64 {
+    let total = m.total();
+    let start = |rng: &mut Rng| if m.blocks.is_empty() { 0 } else { m.blocks[rng.usize_below(m.blocks.len())].start };
+    match rng.below(10) {
+        0 => 0,
+        1 => total,
+        2 => total.saturating_sub(1),
+        3 | 4 => start(rng),
+        5 => start(rng).saturating_sub(1),
+        6 => (start(rng) + 1).min(total),
+        _ => rng.below(total + 1),
+    }
+}
+
+fn run_script(d: &mut Driver<'_>, t: &Targets, script: &[SOp]) {
+    for op in script {
+        if d.dead {
+            break;
+        }
+        match op {
+            SOp::ReadAll(n) => d.read_all(*n),
+            SOp::Read(n) => {
+                d.read(*n);
+            }
+            SOp::ReadExact(n) => d.read_exact(*n),
+            SOp::Fill(sel) => d.fill_consume(*sel),
+            SOp::SeekClass(c) => {
+                if let Some(r) = t.first_of(d.m, *c) {
+                    if d.flavor != Flavor::Indexed {
+                        d.seek_v(r, false, "model");
+                    }
+                }
+            }
+            SOp::SeekFlat(q) => {
+                if d.flavor != Flavor::Indexed {
+                    let r = d.m.canonical((*q).min(d.m.total()));
+                    d.seek_v(r, false, "model");
+                }
+            }
+            SOp::Gzi(off) => d.seek_u((*off).min(d.m.total()), false),
+        }
+    }
+}
+
+fn run_random(d: &mut Driver<'_>, t: &Targets, nops: usize, rng: &mut Rng) {
+    let m = d.m;
+    for _ in 0..nops {
+        if d.dead {
+            break;
+        }
+        let at_end = d.p == m.total();
+        let w = rng.below(100);
+        // 0 read, 1 read_exact, 2 fill/consume, 3 seek, 4 gzi seek
+        let mut kind = if at_end {
+            match w {
+                0..=54 => 3,
+                55..=74 => 4,
+                75..=86 => 0,
+                87..=92 => 1,
+                _ => 2,
+            }
+        } else {
+            match w {
+                0..=31 => 0,
+                32..=44 => 1,
+                45..=61 => 2,
+                62..=86 => 3,
+                _ => 4,
+            }
+        };
+        if kind == 3 && d.flavor == Flavor::Indexed {
+            kind = 4;
+        }
+        match kind {
+            0 => {
+                let n = pick_size(d, rng);
+                d.read(n);
+            }
+            1 => {
+                let rem = (m.total() - d.p) as usize;
+                let n = if rng.chance(1, 9) { rem + 1 + rng.skewed(70000) as usize } else { pick_size(d, rng).min(200_000) };
+                d.read_exact(n);
+            }
+            2 => d.fill_consume(rng.next_u64()),
+            3 => {
+                let (r, origin) = t.pick(m, d, rng);
+                d.seek_v(r, rng.bool(), origin);
+            }
+            _ => {
+                let off = pick_gzi_offset(m, rng);
+                d.seek_u(off, rng.bool());
+            }
+        }
+    }
+}
+
+fn shape_fp(kind: &str, shape: &str, extra: &str) -> u64 {
+    fnv1a(format!("{kind}|{shape}|{extra}").as_bytes())
+}
+
+fn build_or_inconclusive(spec: &LayoutSpec, out: &mut CaseOut) -> Option<Built> {
+    match layout::build(spec) {
+        Ok(b) => Some(b),
+        Err(e) => {
+            out.inconclusive.push(format!("layout could not be established ({e}): {}", spec.to_json()));
+            None
+        }
+    }
+}
+
+fn run_hist(layout: &LayoutSpec, flavor: Flavor, gzi_variant: &str, nops: usize, hseed: u64, script: &Option<Vec<SOp>>) -> CaseOut {
+    let mut out = CaseOut::new();
+    let Some(b) = build_or_inconclusive(layout, &mut out) else { return out };
+    let index = match make_index(&b.model, gzi_variant) {
+        Ok(i) => i,
+        Err(e) => {
+            out.inconclusive.push(e);
+            return out;
+        }
+    };
+    let t = Targets::new(&b.model);
+    let mut d = Driver::new(&b.model, &b.file, flavor, gzi_variant, index);
+    let mut rng = Rng::new(hseed, 0x415, 0);
+    match script {
+        Some(s) => run_script(&mut d, &t, s),
+        None => run_random(&mut d, &t, nops, &mut rng),
+    }
+    out.count("histories", 1);
+    out.count(&format!("histories[{}]", flavor.name()), 1);
+    out.count(&format!("gzi_index_variant[{gzi_variant}]"), 1);
+    out.max("max_history_operations", d.nops);
+    out.max("max_blocks_in_a_layout", b.model.blocks.len() as u64);
+    out.fp = shape_fp("hist", &b.model.shape(), &format!("{}|{gzi_variant}", flavor.name()));
+    absorb(&mut out, d);
+    out
+}
+
+// ---------------------------------------------------------------------------------------------
+// exhaustive seeks
+
+fn targets_of(m: &Model, dense_limit: usize, rng: &mut Rng) -> Vec<u64> {
+    let mut v = Vec::new();
+    for b in &m.blocks {
+        if b.len == 0 {
+            v.push(raw(b.off, 0));
+        } else if b.len <= dense_limit {
+            for u in 0..b.len {
+                v.push(raw(b.off, u as u64));
+            }
+        } else {
+            let mut us: BTreeSet<usize> = [0, 1, 2, b.len - 3, b.len - 2, b.len - 1].into_iter().collect();
+            for _ in 0..3 {
+                us.insert(rng.usize_below(b.len));
+            }
+            for u in us {
+                v.push(raw(b.off, u as u64));
+            }
+        }
+    }
+    v.push(raw(m.file_len, 0));
+    v
+}
+
+/// After a seek: the stream must continue from exactly the model cursor.
+fn verify_after_seek(d: &mut Driver<'_>, i: usize) {
+    if d.dead {
+        return;
+    }
+    let rem = d.m.total() - d.p;
+    if rem == 0 {
+        d.read(16);
+        d.fill_consume(1);
+        return;
+    }
+    let rb = d.rem_in_block();
+    // cross into the next block when that is cheap
+    let k = if rb <= 4 { rb + 3 } else { 8 };
+    match i % 3 {
+        0 => d.read_exact(k.min(rem) as usize),
+        1 => {
+            d.read(k as usize);
+        }
+        _ => d.fill_consume(5 + ((k.min(rb)) << 8)),
+    }
+}
+
+fn exhaust_layout(b: &Built, dense_limit: usize, rng: &mut Rng, out: &mut CaseOut) {
+    let m = &b.model;
+    let targets = targets_of(m, dense_limit, rng);
+    let index = gzi::Index::from(m.gzi_full());
+    let mut shuffled = targets.clone();
+    rng.shuffle(&mut shuffled);
+    // A: one reader, targets in file order
+    let mut a = Driver::new(m, &b.file, Flavor::Plain, "full", index.clone());
+    for (i, &t) in targets.iter().enumerate() {
+        a.seek_v(t, i % 2 == 0, "model");
+        verify_after_seek(&mut a, i);
+    }
+    absorb(out, a);
+    // B: one reader, shuffled order, now and then run to the very end first
+    let mut r = Driver::new(m, &b.file, Flavor::Plain, "full", index.clone());
+    for (i, &t) in shuffled.iter().enumerate() {
+        if i % 5 == 2 {
+            r.read_all(70000);
+        }
+        r.seek_v(t, i % 2 == 1, "model");
+        verify_after_seek(&mut r, i + 1);
+    }
+    absorb(out, r);
+    // C: a fresh reader per target
+    for (i, &t) in targets.iter().enumerate() {
+        let mut c = Driver::new(m, &b.file, Flavor::Plain, "full", index.clone());
+        c.seek_v(t, false, "model");
+        verify_after_seek(&mut c, i + 2);
+        absorb(out, c);
+    }
+    // D: the multithreaded reader, reused, every 5th shuffled target plus the end targets
+    let mut dm = Driver::new(m, &b.file, Flavor::Mt, "full", index.clone());
+    for (i, &t) in shuffled.iter().enumerate() {
+        if i % 5 == 0 || m.classify(t) >= Class::EndAtEofMarker {
+            dm.seek_v(t, true, "model");
+            verify_after_seek(&mut dm, i);
+        }
+    }
+    absorb(out, dm);
+    // E: seek by uncompressed offset to every flat offset the targets denote
+    let mut e = Driver::new(m, &b.file, Flavor::Indexed, "full", index);
+    for &t in &shuffled {
+        let q = m.flat(t).unwrap();
+        e.seek_u(q, false);
+        verify_after_seek(&mut e, q as usize);
+    }
+    absorb(out, e);
+    out.count("exhaust_layouts", 1);
+    out.count("exhaust_targets", targets.len() as u64);
+    out.fps.push(shape_fp("exhaust", &m.shape(), ""));
+}
+
+fn run_scan(layout: &LayoutSpec, block: usize, lo: usize, hi: usize) -> CaseOut {
+    let mut out = CaseOut::new();
+    let Some(b) = build_or_inconclusive(layout, &mut out) else { return out };
+    let m = &b.model;
+    let blk = m.blocks[block].clone();
+    let index = gzi::Index::from(m.gzi_full());
+    let mut d = Driver::new(m, &b.file, Flavor::Plain, "full", index.clone());
+    let mut g = Driver::new(m, &b.file, Flavor::Indexed, "full", index.clone());
+    for u in lo..hi.min(blk.len) {
+        d.seek_v(raw(blk.off, u as u64), u % 2 == 0, "model");
+        verify_after_seek(&mut d, u);
+        if u % 4 == 0 {
+            g.seek_u(blk.start + u as u64, false);
+            verify_after_seek(&mut g, u + 1);
+        }
+        if u % 64 == 0 {
+            let mut f = Driver::new(m, &b.file, Flavor::Plain, "full", index.clone());
+            f.seek_v(raw(blk.off, u as u64), false, "model");
+            verify_after_seek(&mut f, u);
+            absorb(&mut out, f);
+        }
+    }
+    out.count("scan_offsets", (hi.min(blk.len) - lo.min(blk.len)) as u64);
+    out.fp = shape_fp("scan", &m.shape(), &format!("{block}|{lo}"));
+    absorb(&mut out, d);
+    absorb(&mut out, g);
+    out
+}
+
+// ---------------------------------------------------------------------------------------------
+// writer side
+
+#[allow(clippy::too_many_arguments)]
+fn run_writer(total: usize, class: &str, split: &str, flush_every: usize, level: u8, end: &str, raw_write: bool, pseed: u64) -> CaseOut {
+    let mut out = CaseOut::new();
+    let mut rng = Rng::new(pseed, 0x77, 0);
+    let data = payload::make(class, total, &mut rng);
+    let pieces = payload::split_pattern(split, total, &mut rng);
+    let lvl = bgzf::io::writer::CompressionLevel::new(level).expect("level 0..=9");
+    // (raw virtual position, bytes handed to the writer before the sample)
+    let mut samples: Vec<(u64, u64)> = Vec::new();
+    let r = guard::catch(|| -> std::io::Result<Vec<u8>> {
+        let mut w = bgzf::io::writer::Builder::default().set_compression_level(lvl).build_from_writer(Vec::new());
+        let mut off = 0usize;
+        for (i, &n) in pieces.iter().enumerate() {
+            let piece = &data[off..off + n];
+            if raw_write {
+                let mut p = piece;
+                loop {
+                    samples.push((u64::from(w.virtual_position()), (off + n - p.len()) as u64));
+                    let k = w.write(p)?;
+                    p = &p[k..];
+                    if p.is_empty() {
+                        break;
+                    }
+                    if k == 0 {
+                        return Err(std::io::Error::other("write returned 0"));
+                    }
+                }
+            } else {
+                samples.push((u64::from(w.virtual_position()), off as u64));
+                w.write_all(piece)?;
+            }
+            off += n;
+            if flush_every > 0 && (i + 1) % flush_every == 0 {
+                w.flush()?;
+            }
+        }
+        samples.push((u64::from(w.virtual_position()), total as u64));
+        match end {
+            "finish" => w.finish(),
+            "no_eof" => {
+                w.flush()?;
+                samples.push((u64::from(w.virtual_position()), total as u64));
+                Ok(w.into_inner())
+            }
+            _ => {
+                w.try_finish()?;
+                w.finish()
+            }
+        }
+    });
+    let file = match r {
+        Ok(Ok(f)) => f,
+        Ok(Err(e)) => {
+            out.inconclusive.push(format!("the writer failed on a Vec sink: {e}"));
+            return out;
+        }
+        Err(p) => {
+            out.violation(format!("panic:{}", p.sig), format!("the writer panicked: {}", p.message));
+            return out;
+        }
+    };
+    let m = match Model::from_file(&file) {
+        Ok(m) if m.u == data => m,
+        Ok(_) => {
+            out.inconclusive.push("the writer's output does not inflate to the payload (C01's business); positions cannot be judged".into());
+            return out;
+        }
+        Err(e) => {
+            out.inconclusive.push(format!("the independent walker rejects the writer's output ({e}; C01's business)"));
+            return out;
+        }
+    };
+    out.count("writer_histories", 1);
+    out.count("writer_positions_sampled", samples.len() as u64);
+    out.max("max_blocks_in_a_layout", m.blocks.len() as u64);
+    let describe = |s: &(u64, u64)| format!("virtual_position() = {} sampled after {} of {total} bytes had been written; {}", show(s.0), s.1, m.describe());
+    // (1) every sample names exactly the byte that was written next
+    let mut seekable: Vec<(u64, u64)> = Vec::new();
+    for s in &samples {
+        match m.flat(s.0) {
+            Some(q) if q == s.1 => {
+                if s.1 < total as u64 && !matches!(m.classify(s.0), Class::BlockEndNonCanonical | Class::NotABoundary) {
+                    seekable.push(*s);
+                } else if s.1 < total as u64 {
+                    out.count("writer_samples_noncanonical(not sought)", 1);
+                }
+            }
+            Some(q) => {
+                out.violation("writer-vpos-names-other-byte", format!("the position names flat offset {q}, not {}: {}", s.1, describe(s)));
+                return out;
+            }
+            None => {
+                out.violation("writer-vpos-not-a-byte-boundary", format!("the position names no byte boundary of the finished file: {}", describe(s)));
+                return out;
+            }
+        }
+    }
+    out.count("writer_positions_mapped_to_written_count", samples.len() as u64);
+    // (2) readers that seek there deliver the stream from exactly that byte
+    seekable.dedup();
+    let stride = seekable.len().div_ceil(100).max(1);
+    let chosen: Vec<(u64, u64)> = seekable
+        .iter()
+        .enumerate()
+        .filter(|(i, s)| i % stride == 0 || *i + 3 >= seekable.len() || (s.0 & 0xffff) == 0)
+        .map(|(_, s)| *s)
+        .take(160)
+        .collect();
+    let file: Arc<[u8]> = Arc::from(file.into_boxed_slice());
+    let index = gzi::Index::from(m.gzi_full());
+    let mut reused = Driver::new(&m, &file, Flavor::Plain, "full", index.clone());
+    let mut order = chosen.clone();
+    rng.shuffle(&mut order);
+    for (i, s) in order.iter().enumerate() {
+        reused.seek_v(s.0, i % 2 == 0, "sampled-from-the-writer");
+        let rem = (total as u64 - s.1) as usize;
+        reused.read_exact(rem.min(300));
+    }
+    absorb(&mut out, reused);
+    for (i, s) in chosen.iter().enumerate() {
+        let flavor = if i % 8 == 7 { Flavor::Mt } else { Flavor::Plain };
+        let mut d = Driver::new(&m, &file, flavor, "full", index.clone());
+        d.seek_v(s.0, flavor == Flavor::Mt, "sampled-from-the-writer");
+        let rem = (total as u64 - s.1) as usize;
+        if i + 4 >= chosen.len() || rem <= 70_000 {
+            // the whole remaining tail
+            d.read_all(if i % 2 == 0 { 65536 } else { 8192 });
+            if !d.dead && d.p != total as u64 {
+                out.violation("tail-ends-early", format!("after seeking to the sampled position the reader reached end of data at {} of {total}: {}", d.p, describe(s)));
+            }
+            out.count("writer_positions_whole_tail_compared", 1);
+        } else {
+            // a bounded prefix that crosses at least one block boundary
+            d.read_exact(66_000.min(rem));
+            out.count("writer_positions_prefix_compared", 1);
+        }
+        out.count("writer_positions_sought", 1);
+        absorb(&mut out, d);
+    }
+    out.fp = shape_fp("writer", &m.shape(), &format!("{split}|{flush_every}|{end}|{raw_write}"));
+    out
+}
+
+// ---------------------------------------------------------------------------------------------
+// case generation
+
+fn built(lens: &[u32], enc: u8, eofs: u8, class: &str, cseed: u64) -> LayoutSpec {
+    LayoutSpec::Built { lens: lens.to_vec(), enc, eofs, class: class.to_string(), cseed }
+}
+
+fn random_layout(rng: &mut Rng) -> LayoutSpec {
+    let eofs = match rng.below(20) {
+        0..=5 => 0,
+        6..=16 => 1,
+        17..=18 => 2,
+        _ => 3,
+    };
+    let enc = rng.below(4) as u8;
+    let cseed = rng.next_u64() >> 1;
+    let class = |rng: &mut Rng| rng.pick(layout::DISTINCT_SMALL).to_string();
+    match rng.below(20) {
+        0 => LayoutSpec::Built { lens: vec![], enc, eofs: rng.below(3) as u8, class: "dna".into(), cseed },
+        1..=4 => {
+            let n = rng.urange(1, 8);
+            let lens = (0..n).map(|_| if rng.chance(1, 4) { 0 } else { rng.urange(1, 8) as u32 }).collect();
+            LayoutSpec::Built { lens, enc, eofs, class: class(rng), cseed }
+        }
+        5..=9 => {
+            let n = rng.urange(1, 12);
+            let lens = (0..n)
+                .map(|_| match rng.below(20) {
+                    0..=2 => 0,
+                    3 => 1,
+                    4 => 2,
+                    _ => rng.urange(3, 300) as u32,
+                })
+                .collect();
+            LayoutSpec::Built { lens, enc, eofs, class: class(rng), cseed }
+        }
+        10..=12 => {
+            let n = rng.urange(1, 5);
+            let lens = (0..n)
+                .map(|_| match rng.below(9) {
+                    0 => 0,
+                    1 => 1,
+                    2 => 2,
+                    3 => 65535,
+                    4 | 5 => 65536,
+                    6 => 65280,
+                    7 => 65279,
+                    _ => rng.urange(3, 65534) as u32,
+                })
+                .collect();
+            LayoutSpec::Built { lens, enc, eofs, class: rng.pick(layout::DISTINCT_BIG).to_string(), cseed }
+        }
+        13..=15 => {
+            let n = rng.urange(3, 12);
+            let lens = (0..n)
+                .map(|_| match rng.below(20) {
+                    0..=13 => rng.urange(30000, 65536) as u32,
+                    14..=16 => 65536,
+                    17 => 0,
+                    _ => rng.urange(1, 300) as u32,
+                })
+                .collect();
+            LayoutSpec::Built { lens, enc, eofs, class: rng.pick(layout::DISTINCT_BIG).to_string(), cseed }
+        }
+        _ => {
+            let split = rng.pick(payload::SPLITS).to_string();
+            let flush_every = *rng.pick(&[0usize, 0, 1, 2, 5]);
+            let tiny = split == "ones" || split == "small";
+            let total = if tiny && flush_every > 0 {
+                rng.skewed(3000) as usize
+            } else if tiny {
+                rng.skewed(70000) as usize
+            } else {
+                rng.skewed(400_000) as usize
+            };
+            let end = match rng.below(20) {
+                0..=11 => "finish",
+                12..=16 => "no_eof",
+                _ => "double_eof",
+            };
+            LayoutSpec::Writer { total, class: class(rng), split, flush_every, level: rng.below(10) as u8, end: end.into(), pseed: cseed }
+        }
+    }
+}
+
+const ENUM_LENS: [u32; 5] = [0, 1, 2, 65535, 65536];
+const DENSE_LENS: [u32; 4] = [0, 1, 2, 5];
+
+fn enumerate(alphabet: &[u32], max_blocks: usize, f: &mut dyn FnMut(&[u32])) {
+    fn rec(alphabet: &[u32], max: usize, cur: &mut Vec<u32>, f: &mut dyn FnMut(&[u32])) {
+        f(cur);
+        if cur.len() == max {
+            return;
+        }
+        for &l in alphabet {
+            cur.push(l);
+            rec(alphabet, max, cur, f);
+            cur.pop();
+        }
+    }
+    rec(alphabet, max_blocks, &mut Vec::new(), f);
+}
+
+fn witness_cases(cases: &mut Vec<Case>) {
+    let hw = built(&[5, 5], 2, 0, "text", 11);
+    let hw_eof = built(&[5, 5], 2, 1, "text", 11);
+    let mut push = |name: &'static str, layout: &LayoutSpec, flavor: Flavor, script: Vec<SOp>| {
+        cases.push(Case::Hist { name, layout: layout.clone(), flavor, gzi: "full", nops: script.len(), hseed: 0, script: Some(script) });
+    };
+    for flavor in [Flavor::Plain, Flavor::Mt] {
+        // §1 of DESIGN.md: read everything of "hello"+"world" without EOF marker, seek to the end position, read
+        push("witness:seek-to-end-without-eof-marker", &hw, flavor, vec![SOp::ReadAll(4096), SOp::SeekClass(Class::FileEndNoEof), SOp::Read(16), SOp::Fill(1)]);
+        // the same defect with an EOF marker: the position a reader reports after the EOF marker
+        push("witness:seek-past-eof-marker", &hw_eof, flavor, vec![SOp::Read(1), SOp::SeekClass(Class::AfterEofMarker), SOp::Read(16), SOp::Fill(1)]);
+        // ... and on a reader that has not loaded any block yet
+        push("witness:fresh-reader-seek-to-file-end", &hw, flavor, vec![SOp::SeekClass(Class::FileEndNoEof), SOp::Read(16)]);
+        push("witness:fresh-reader-seek-past-eof-marker", &hw_eof, flavor, vec![SOp::SeekClass(Class::AfterEofMarker), SOp::Read(16)]);
+        // control: the canonical end position of a file with EOF marker is fine
+        push("control:seek-to-eof-marker", &hw_eof, flavor, vec![SOp::ReadAll(4096), SOp::SeekClass(Class::EndAtEofMarker), SOp::Read(16), SOp::SeekFlat(3), SOp::ReadAll(7)]);
+    }
+    // the >= 64 KiB direct-decode path at the end of a file without EOF marker
+    push("witness:direct-read-at-end-without-eof-marker", &built(&[5, 7], 2, 0, "text", 12), Flavor::Plain, vec![SOp::ReadAll(4096), SOp::Read(65536), SOp::Read(131072), SOp::Read(16)]);
+    push("witness:direct-read-exact-at-end-without-eof-marker", &built(&[3, 65536], 2, 0, "dna", 13), Flavor::Plain, vec![SOp::ReadAll(4096), SOp::ReadExact(65536), SOp::SeekFlat(1), SOp::ReadExact(65538 + 65536)]);
+    push("control:direct-read-at-end-with-eof-marker", &built(&[5, 7], 2, 1, "text", 12), Flavor::Plain, vec![SOp::ReadAll(4096), SOp::Read(65536), SOp::Read(131072), SOp::Gzi(12), SOp::Read(65536)]);
+}
+
+fn corpus_layouts() -> Vec<LayoutSpec> {
+    let mut v = vec![
+        built(&[], 0, 0, "dna", 1),
+        built(&[], 0, 1, "dna", 1),
+        built(&[], 0, 3, "dna", 1),
+        built(&[0, 0, 0], 0, 0, "dna", 2),
+        built(&[0, 7, 0, 0, 4, 0], 0, 1, "text", 3),
+        built(&[0, 7, 0, 0, 4, 0], 2, 0, "text", 3),
+        built(&[1, 1, 1, 1, 1, 1, 1, 1], 1, 1, "random", 4),
+        built(&[1, 0, 1, 0, 1], 0, 2, "random", 4),
+        built(&[65536], 0, 1, "dna", 5),
+        built(&[65536], 2, 0, "dna", 5),
+        built(&[65536, 65536, 65536], 3, 1, "text", 6),
+        built(&[65536, 0, 65536, 0], 1, 0, "skewed", 7),
+        built(&[65535, 65536, 1, 65536], 2, 1, "qualities", 8),
+        built(&[0, 65536, 2, 0, 65535], 0, 0, "two_symbols", 9),
+        built(&[65280, 65280, 100], 2, 1, "dna", 10),
+        built(&[300, 0, 300, 65536, 0, 1, 65536, 65536, 9], 3, 2, "dna", 14),
+        built(&[70, 80, 90, 100], 2, 0, "random", 15),
+    ];
+    for (i, end) in ["finish", "no_eof", "double_eof"].iter().enumerate() {
+        v.push(LayoutSpec::Writer { total: 200_000, class: "dna".into(), split: "mixed".into(), flush_every: 2, level: 6, end: end.to_string(), pseed: 20 + i as u64 });
+        v.push(LayoutSpec::Writer { total: 1000, class: "text".into(), split: "small".into(), flush_every: 1, level: 1, end: end.to_string(), pseed: 30 + i as u64 });
+        v.push(LayoutSpec::Writer { total: 65280 * 3, class: "random".into(), split: "all".into(), flush_every: 0, level: 0, end: end.to_string(), pseed: 40 + i as u64 });
+    }
+    v
+}
+
+const GZI_VARIANTS: [&str; 3] = ["full", "no-trailing", "full-roundtrip"];
+
+fn gen_cases(ctx: &Ctx) -> Vec<Case> {
+    let mut cases = Vec::new();
+    let thorough = ctx.tier == Tier::Thorough;
+    // (a) witnesses of the known defects + controls (deterministic, seed-independent)
+    witness_cases(&mut cases);
+    // (b) corpus layouts x reader flavour x gzi variant, random histories with fixed seeds
+    for (i, l) in corpus_layouts().iter().enumerate() {
+        for (j, flavor) in [Flavor::Plain, Flavor::Indexed, Flavor::Mt, Flavor::Plain].iter().enumerate() {
+            cases.push(Case::Hist { name: "corpus", layout: l.clone(), flavor: *flavor, gzi: GZI_VARIANTS[(i + j) % 3], nops: 120, hseed: 1000 + (i * 4 + j) as u64, script: None });
+        }
+    }
+    // (c) seeded random histories
+    let n = ctx.budget("hist", 3600, 100_000);
+    let mut rng = Rng::new(ctx.seed, 0xC02, 0);
+    for i in 0..n {
+        let flavor = match rng.below(20) {
+            0..=13 => Flavor::Plain,
+            14..=17 => Flavor::Indexed,
+            _ => Flavor::Mt,
+        };
+        cases.push(Case::Hist {
+            name: "random",
+            layout: random_layout(&mut rng),
+            flavor,
+            gzi: GZI_VARIANTS[rng.usize_below(3)],
+            nops: rng.urange(10, 200),
+            hseed: ctx.seed.wrapping_mul(0x9E37_79B9).wrapping_add(i),
+            script: None,
+        });
+    }
+    // (d) exhaustive seeks: all layouts over ENUM_LENS up to max_blocks, with and without EOF marker
+    let max_blocks = ctx.budget("exh_blocks", 3, 6) as usize;
+    let mut batch: Vec<LayoutSpec> = Vec::new();
+    let mut k = 0u64;
+    let flush = |batch: &mut Vec<LayoutSpec>, cases: &mut Vec<Case>, k: &mut u64, dense: usize| {
+        if !batch.is_empty() {
+            *k += 1;
+            cases.push(Case::Exhaust { layouts: std::mem::take(batch), hseed: ctx.seed ^ (*k << 16), dense_limit: dense });
+        }
+    };
+    enumerate(&ENUM_LENS, max_blocks, &mut |lens| {
+        for eofs in 0..=1u8 {
+            let enc = ((lens.len() + eofs as usize) % 3) as u8;
+            batch.push(built(lens, enc, eofs, "dna", 77));
+            if batch.len() >= 4 {
+                flush(&mut batch, &mut cases, &mut k, 300);
+            }
+        }
+    });
+    flush(&mut batch, &mut cases, &mut k, 300);
+    // small blocks: every byte boundary of every layout over DENSE_LENS up to 4 (quick) / 5 blocks
+    enumerate(&DENSE_LENS, if thorough { 5 } else { 4 }, &mut |lens| {
+        for eofs in 0..=2u8 {
+            if eofs == 2 && lens.len() > 2 {
+                continue;
+            }
+            batch.push(built(lens, ((lens.len() + eofs as usize) % 3) as u8, eofs, "random", 78));
+            if batch.len() >= 24 {
+                flush(&mut batch, &mut cases, &mut k, 300);
+            }
+        }
+    });
+    flush(&mut batch, &mut cases, &mut k, 300);
+    // random larger layouts, dense in blocks up to 300 bytes
+    let n = ctx.budget("exh_random", 160, 4000);
+    let mut rng = Rng::new(ctx.seed, 0xE8A, 0);
+    for _ in 0..n {
+        let mut l = random_layout(&mut rng);
+        if let LayoutSpec::Writer { total, .. } = &mut l {
+            *total = (*total).min(150_000);
+        }
+        batch.push(l);
+        if batch.len() >= 2 {
+            flush(&mut batch, &mut cases, &mut k, 300);
+        }
+    }
+    flush(&mut batch, &mut cases, &mut k, 300);
+    // (e) every in-block offset of a full / nearly full block
+    let mut scans: Vec<(LayoutSpec, usize)> = vec![(built(&[65536], 0, 1, "dna", 90), 0), (built(&[3, 65535, 65536], 0, 1, "text", 91), 1)];
+    if thorough {
+        scans.push((built(&[65536, 65536], 2, 0, "dna", 92), 1));
+        scans.push((built(&[0, 65535, 0], 1, 0, "skewed", 93), 1));
+        scans.push((built(&[65280, 65280], 2, 1, "qualities", 94), 0));
+    }
+    for (l, block) in scans {
+        let mut lo = 0usize;
+        while lo < 65536 {
+            cases.push(Case::Scan { layout: l.clone(), block, lo, hi: lo + 2048 });
+            lo += 2048;
+        }
+    }
+    // (f) writer histories
+    let n = ctx.budget("writer", 320, 8000);
+    let mut rng = Rng::new(ctx.seed, 0x3217, 0);
+    for (i, len) in [0usize, 1, 65279, 65280, 65281, 130559, 130560, 130561, 200_000].iter().enumerate() {
+        for (j, split) in ["all", "halves", "mixed", "blocks"].iter().enumerate() {
+            cases.push(Case::Writer {
+                total: *len,
+                class: layout::DISTINCT_SMALL[(i + j) % layout::DISTINCT_SMALL.len()].to_string(),
+                split: split.to_string(),
+                flush_every: [0, 1, 3][(i + j) % 3],
+                level: ((i * 3 + j) % 10) as u8,
+                end: ["finish", "no_eof", "double_eof"][(i + j) % 3],
+                raw_write: (i + j) % 2 == 0,
+                pseed: 500 + (i * 4 + j) as u64,
+            });
+        }
+    }
+    for i in 0..n {
+        let split = rng.pick(payload::SPLITS).to_string();
+        let flush_every = *rng.pick(&[0usize, 0, 1, 2, 5, 17]);
+        let tiny = split == "ones" || split == "small";
+        let total = match rng.below(10) {
+            0 => *rng.pick(&payload::boundary_lengths()),
+            1..=3 => rng.skewed(5000) as usize,
+            4..=6 => rng.urange(60000, 140000),
+            _ => rng.skewed(400_000) as usize,
+        };
+        let total = if tiny && flush_every > 0 && flush_every < 17 { total.min(3000) } else if tiny { total.min(80_000) } else { total };
+        cases.push(Case::Writer {
+            total,
+            class: rng.pick(layout::DISTINCT_SMALL).to_string(),
+            split,
+            flush_every,
+            level: rng.below(10) as u8,
+            end: match rng.below(10) {
+                0..=6 => "finish",
+                7..=8 => "no_eof",
+                _ => "double_eof",
+            },
+            raw_write: rng.bool(),
+            pseed: ctx.seed.wrapping_mul(77).wrapping_add(i),
+        });
+    }
+    cases
+}
+
+fn run_case(c: &Case) -> CaseOut {
+    match c {
+        Case::Hist { layout, flavor, gzi, nops, hseed, script, .. } => run_hist(layout, *flavor, gzi, *nops, *hseed, script),
+        Case::Exhaust { layouts, hseed, dense_limit } => {
+            let mut out = CaseOut::new();
+            out.evaluations = 0;
+            let mut rng = Rng::new(*hseed, 0xE8, 0);
+            for l in layouts {
+                if let Some(b) = build_or_inconclusive(l, &mut out) {
+                    exhaust_layout(&b, *dense_limit, &mut rng, &mut out);
+                    out.evaluations += 1;
+                }
+            }
+            out
+        }
+        Case::Scan { layout, block, lo, hi } => run_scan(layout, *block, *lo, *hi),
+        Case::Writer { total, class, split, flush_every, level, end, raw_write, pseed } => run_writer(*total, class, split, *flush_every, *level, end, *raw_write, *pseed),
+    }
+}
 
 fn main() {
-    eprintln!("c02: not implemented");
-    std::process::exit(2);
+    // the multithreaded reader inflates on the global rayon pool; cases already run in one child
+    // process per core
+    let _ = rayon::ThreadPoolBuilder::new().num_threads(2).build_global();
+    let ctx = Ctx::from_args();
+    let ctx = vcore::cases::replay_request(&ctx).map(|r| r.1).unwrap_or(ctx);
+    let mut rep = Report::new(
+        "case kinds: hist = one block layout (harness-built stored/deflated members incl. empty, 1-byte, 65535/65536-byte blocks, \
+         0..3 EOF markers; or produced by the real writer with flushes, with/without/with two EOF markers) x reader (Reader, \
+         IndexedReader, MultithreadedReader over Cursor) x gzi variant (all blocks / without trailing empty blocks / written and \
+         read back through gzi::io) x a history of 10-200 operations {read(n), read_exact(n), fill_buf+consume, seek(vpos of a byte \
+         boundary by class or reported earlier by the reader), seek by uncompressed offset}; exhaust = every byte boundary of a \
+         layout (all in-block offsets of blocks <= 300 bytes, 0,1,2,len-3..len-1 + 3 random offsets of larger ones, every empty \
+         block, the file end) sought by a forward-reused, a shuffled-reused, a fresh, an MT and (by flat offset) an indexed reader; \
+         scan = every in-block offset of one 65535/65536-byte block; writer = write/flush history with virtual_position() sampled \
+         before every write. Deterministic corpus + witnesses + VERIF_SEED-seeded random part. distinct = distinct (case kind, \
+         sequence of block length classes 0/1/2/3-255/256-65279/65280/65281-65534/65535/65536, reader, gzi variant | writer split, \
+         flush policy, end mode); every case compares data and positions, so all are non-trivial",
+    );
+    rep.assumptions.push("the reference model is built only from the independent walker (miniz_oxide inflate, own CRC32) and the generator's own payload".into());
+    rep.assumptions.push("tolerances: how many bytes read() returns (1..=n) and how much a failing read_exact consumes are not prescribed (the model re-synchronises from the reported position, which must lie in [p, |U|]); seek by uncompressed offset to |U| may fail with InvalidData when the last indexed block holds 65536 bytes (in-block offset 65536 is not expressible); (block, len) is accepted as a name of the boundary after the block if a reader ever reports it".into());
+    rep.assumptions.push("never generated (out of scope by the statement, C15's business): virtual positions that name no byte boundary, uncompressed offsets > |U|".into());
+    let cases = gen_cases(&ctx);
+    let f = |i: u64| -> CaseOut {
+        let c = &cases[i as usize];
+        let mut o = run_case(c);
+        if i % 397 == 0 {
+            o.sample = Some(case_json(c));
+        }
+        o
+    };
+    run_cases(&ctx, &mut rep, cases.len() as u64, 120.0, &f, &|i| case_json(&cases[i as usize]));
+    if ctx.replay.is_none() {
+        // shapes of the harness-built layouts (computed from the generated length lists)
+        let mut shapes = BTreeSet::new();
+        let mut add = |l: &LayoutSpec| {
+            if let LayoutSpec::Built { lens, eofs, .. } = l {
+                shapes.insert(fnv1a(format!("{lens:?}|{eofs}").as_bytes()));
+            }
+        };
+        for c in &cases {
+            match c {
+                Case::Hist { layout, .. } | Case::Scan { layout, .. } => add(layout),
+                Case::Exhaust { layouts, .. } => layouts.iter().for_each(&mut add),
+                Case::Writer { .. } => {}
+            }
+        }
+        rep.extra.insert("distinct_harness_built_layouts(block length list, EOF markers)".into(), json!(shapes.len()));
+        let max_blocks = ctx.budget("exh_blocks", 3, 6);
+        rep.extra.insert(
+            "exhaustively_enumerated_subspace".into(),
+            json!(format!("all layouts of 0..={max_blocks} blocks with lengths in {ENUM_LENS:?} x (no / one EOF marker), targets as stated in the rule")),
+        );
+        let floors: Vec<(&str, u64)> = vec![
+            ("histories", if ctx.quick() { 2000 } else { 50_000 }),
+            ("operations", 150_000),
+            ("positions_compared", 150_000),
+            ("ops[read]", 20_000),
+            ("ops[read_exact]", 5_000),
+            ("ops[fill_buf]", 5_000),
+            ("ops[consume]", 5_000),
+            ("ops[seek]", 20_000),
+            ("ops[gzi_seek]", 5_000),
+            ("seeks[mid-block]", 2_000),
+            ("seeks[block-start]", 1_000),
+            ("seeks[block-last-byte]", 1_000),
+            ("seeks[empty-block-mid-file]", 500),
+            ("seeks[end-at-eof-marker]", 500),
+            ("seeks[file-end-without-eof-marker]", 200),
+            ("seeks[after-eof-marker]", 200),
+            ("seek_origin[reported-by-the-reader-earlier]", 1_000),
+            ("reads_ge_64k_at_exhausted_block(direct-decode path)", 500),
+            ("gzi_index_variant[full-roundtrip]", 100),
+            ("writer_positions_sampled", 5_000),
+            ("writer_positions_sought", 2_000),
+            ("exhaust_layouts", 300),
+            ("scan_offsets", 100_000),
+        ];
+        for (k, need) in floors {
+            let got = rep.counters.get(k).copied().unwrap_or(0);
+            rep.floor(k, got, need);
+        }
+    }
+    rep.finish(&ctx);
 }
